@@ -16,6 +16,7 @@ RULE = ("(a) EXHAUSTIVE: every calendar day 1900-01-01..2100-12-31 (73414 days) 
         "classes hit); non-trivial = >= 2 slices and >= 1 time within a day of a bucket boundary.")
 EXHAUSTIVE = "date conversions for every day 1900-2100"
 RULE += " " + 'Whole times / lead times / locations whose values are exactly 0; shards rotate the process time zone.'
+RULE += " " + 'Rounds 9-10: all-zero and all-missing slices with counts under -m obs/fcst; the partition of the cases SELECTED by -d/-tod on the time-derived axes; rapid-update run series (runs 15 min to 2 days apart).'
 ASSUMPTIONS = ["initialisation times are whole seconds; UTC calendar; Monday-based weeks",
                "dayofyear numbering: either leap-year calendar (verif) or true ordinal is accepted, consistently"]
 REQUIRED_COUNTERS = ["days_converted", "bucket_checks", "partition_checks", "label_checks", "csv_rows", "weighted_mean_checks"]
